@@ -11,11 +11,11 @@ PROP = 'C20'
 RULE = ('cases = LinearLayerTT(size_in,size_out,rank,dtype,initializer) with 1..4 modes, rectangular sizes 1..5, rank profiles one/uniform/distinct/random, '
         'f32/f64, initializers He/Glo, bias overwritten with random values, inputs with 0..3 leading batch dims (size-1 batch dims included). Oracle: forward(x) '
         'vs tensordot of the harness-contracted dense operator plus bias (1e3*u*S_rep); named_parameters() holds every core and the bias, all requires_grad; '
-        'gradients of a random scalar loss w.r.t. every parameter vs autograd of the dense map; in half of the cases a history follows: eval(), forward, parameters overwritten in place, forward again (must reflect the new parameters), gradients in eval mode; an invalid initializer must raise. '
+        'gradients of a random scalar loss w.r.t. every parameter vs autograd of the dense map; in a third of the cases an untracked (no_grad) forward precedes the tracked one; in half of the cases a history follows: eval(), forward, parameters overwritten in place, forward again (must reflect the new parameters), gradients in eval mode; an invalid initializer must raise. '
         'distinct = (sizes, rank, batch shape, dtype, initializer); non-trivial = non-zero reference output.')
 ASSUMPTIONS = ['cores are re-set to int-valued tensors in half of the cases so that forward can be compared bit-exactly in those']
 REQUIRED_REACH = ['nn:LinearLayerTT.__init__', 'nn:LinearLayerTT.forward', '_extras:randn']
-REQUIRED_COUNTS = {'history:eval-update-forward': 5, 'batchdims:0': 1, 'batchdims:1': 1, 'batchdims:2': 1, 'batchdims:3': 1, 'init:He': 1, 'init:Glo': 1, 'grad_checks': 10, 'invalid-initializer': 1}
+REQUIRED_COUNTS = {'history:eval-update-forward': 5, 'history:no_grad-forward-first': 5, 'batchdims:0': 1, 'batchdims:1': 1, 'batchdims:2': 1, 'batchdims:3': 1, 'init:He': 1, 'init:Glo': 1, 'grad_checks': 10, 'invalid-initializer': 1}
 LINE_FUNCS = ['LinearLayerTT.forward', 'LinearLayerTT.__init__']
 
 
@@ -96,6 +96,19 @@ def run_layer(case, ctx, g):
     nb = len(batch)
     xr = x.to(torch.float64)
     ref = torch.tensordot(xr, W, dims=(list(range(nb, nb + d)), list(range(d, 2 * d)))) + bleaf
+    if case['seed'] % 3 == 1:
+        # an untracked evaluation first (a validation pass), parameters unchanged, then the tracked one below: its output and derivatives must not come from anything the first left behind
+        ctx.count('history:no_grad-forward-first')
+
+        def untracked(inp):
+            with torch.no_grad():
+                return layer(inp)
+        y0 = ctx.lib('LinearLayerTT.forward[no_grad]', untracked, x)
+        if isinstance(y0, Raised):
+            ctx.viol(key + '/no_grad/clause=raises:%s' % y0.type, '%s no_grad forward raised %r' % (what, y0))
+        else:
+            compare(ctx, key + '/no_grad', y0, ref.detach(), case['intvals'] and gens.exact_ok(dt, gens.abs_bound(cores) * float(x.abs().sum()) + float(layer.bias.detach().abs().max())),
+                    dn.ueps(dt), dn.s_rep(cores) * dn.fro(x) + dn.fro(layer.bias.detach()), what + ' [no_grad]')
     y = ctx.lib('LinearLayerTT.forward', lambda inp: layer(inp), x)
     if isinstance(y, Raised):
         ctx.viol(key + '/clause=raises:%s' % y.type, '%s forward raised %r' % (what, y))
